@@ -10,6 +10,7 @@ import (
 	"fmt"
 	"math/rand"
 	"net"
+	"os"
 	"syscall"
 	"time"
 
@@ -55,7 +56,7 @@ func runLifecycle(args []string) error {
 	} else {
 		defer relay.Close()
 	}
-	base := 20000 + r.Intn(20000)
+	base := 20000 + (r.Intn(20000)+os.Getpid()*131)%20000 // concurrent runs of this harness must not collide
 	k := 0
 	for n := 1; n <= 3; n++ {
 		for failat := 0; failat <= n; failat++ {
@@ -118,41 +119,100 @@ func runLifecycle(args []string) error {
 					continue
 				}
 				t.Emit(Ev{"ev": "ports", "when": "after-start", "busy": busy()})
-				buf := make([]byte, 4096)
-				for i, a := range all {
+				buf := make([]byte, 65536)
+				// one request/reply exchange with listener i over the wire; replies to earlier requests are skipped
+				roundTrip := func(i int, a net.UDPAddr, tag byte) (Ev, bool) {
 					if protoOf[i] == 4 {
 						if relay == nil {
-							continue
+							return nil, false
 						}
-						d, _ := dhcpv4.NewDiscovery(net.HardwareAddr{2, 0, 0, byte(k), byte(i), 1})
+						d, _ := dhcpv4.NewDiscovery(net.HardwareAddr{2, 0, tag, byte(k), byte(i), 1})
 						d.GatewayIPAddr = net.IPv4(127, 0, 0, 1).To4()
 						relay.WriteToUDP(d.ToBytes(), &a)
-						relay.SetReadDeadline(time.Now().Add(3 * time.Second))
-						e := Ev{"ev": "rt", "i": i + 1, "proto": 4, "res": "timeout", "type": -1, "xidok": false}
-						if m, _, err := relay.ReadFromUDP(buf); err == nil {
-							if rp, err := dhcpv4.FromBytes(buf[:m]); err == nil {
-								e["res"], e["type"], e["xidok"] = "reply", int(rp.MessageType()), rp.TransactionID == d.TransactionID
+						deadline := time.Now().Add(3 * time.Second)
+						relay.SetReadDeadline(deadline)
+						e := Ev{"i": i + 1, "proto": 4, "res": "timeout", "type": -1, "xidok": false}
+						for time.Now().Before(deadline) {
+							m, _, err := relay.ReadFromUDP(buf)
+							if err != nil {
+								break
+							}
+							if rp, err := dhcpv4.FromBytes(buf[:m]); err == nil && rp.TransactionID == d.TransactionID {
+								e["res"], e["type"], e["xidok"] = "reply", int(rp.MessageType()), true
+								break
 							}
 						}
+						return e, true
+					}
+					c6, err := net.ListenUDP("udp6", &net.UDPAddr{IP: net.ParseIP("::1")})
+					if err != nil {
+						return nil, false
+					}
+					defer c6.Close()
+					m, _ := dhcpv6.NewSolicit(net.HardwareAddr{2, 0, tag, byte(k), byte(i), 1})
+					c6.WriteToUDP(m.ToBytes(), &a)
+					c6.SetReadDeadline(time.Now().Add(3 * time.Second))
+					e := Ev{"i": i + 1, "proto": 6, "res": "timeout", "type": -1, "xidok": false}
+					if nn, _, err := c6.ReadFromUDP(buf); err == nil {
+						if rp, err := dhcpv6.FromBytes(buf[:nn]); err == nil {
+							if rm, ok := rp.(*dhcpv6.Message); ok {
+								e["res"], e["type"], e["xidok"] = "reply", int(rm.MessageType), rm.TransactionID == m.TransactionID
+							}
+						}
+					}
+					return e, true
+				}
+				for i, a := range all {
+					if e, ok := roundTrip(i, a, 0); ok {
+						e["ev"] = "rt"
 						t.Emit(e)
+					}
+				}
+				// byte strings of every length arrive on the real sockets - the empty datagram included, which only a
+				// socket can deliver (a 0-byte read is a datagram on UDP, not end of stream); the listener must still
+				// be serving afterwards
+				for i, a := range all {
+					var src *net.UDPConn
+					if protoOf[i] == 4 {
+						src = relay
 					} else {
-						c6, err := net.ListenUDP("udp6", &net.UDPAddr{IP: net.ParseIP("::1")})
-						if err != nil {
-							continue
-						}
-						m, _ := dhcpv6.NewSolicit(net.HardwareAddr{2, 0, 0, byte(k), byte(i), 1})
-						c6.WriteToUDP(m.ToBytes(), &a)
-						c6.SetReadDeadline(time.Now().Add(3 * time.Second))
-						e := Ev{"ev": "rt", "i": i + 1, "proto": 6, "res": "timeout", "type": -1, "xidok": false}
-						if nn, _, err := c6.ReadFromUDP(buf); err == nil {
-							if rp, err := dhcpv6.FromBytes(buf[:nn]); err == nil {
-								if rm, ok := rp.(*dhcpv6.Message); ok {
-									e["res"], e["type"], e["xidok"] = "reply", int(rm.MessageType), rm.TransactionID == m.TransactionID
-								}
+						src, _ = net.ListenUDP("udp6", &net.UDPAddr{IP: net.ParseIP("::1")})
+					}
+					if src == nil {
+						continue
+					}
+					for ki, kind := range []string{"empty", "one-byte", "truncated", "junk", "large", "empty-twice"} {
+						var b []byte
+						switch kind {
+						case "one-byte":
+							b = []byte{byte(1 + r.Intn(2))}
+						case "truncated":
+							if protoOf[i] == 4 {
+								d, _ := dhcpv4.NewDiscovery(net.HardwareAddr{2, 0, 0, 0, 0, 1})
+								b = d.ToBytes()
+							} else {
+								m, _ := dhcpv6.NewSolicit(net.HardwareAddr{2, 0, 0, 0, 0, 1})
+								b = m.ToBytes()
 							}
+							b = b[:1+r.Intn(len(b)-1)]
+						case "junk":
+							b = make([]byte, 1+r.Intn(600))
+							r.Read(b)
+						case "large":
+							b = make([]byte, 60000)
+							r.Read(b)
 						}
-						c6.Close()
-						t.Emit(e)
+						src.WriteToUDP(b, &a)
+						if kind == "empty-twice" {
+							src.WriteToUDP(b, &a)
+						}
+						if e, ok := roundTrip(i, a, byte(1+ki)); ok {
+							e["ev"], e["kind"], e["len"] = "dgs", kind, len(b)
+							t.Emit(e)
+						}
+					}
+					if protoOf[i] != 4 {
+						src.Close()
 					}
 				}
 				done := make(chan error, 1)
